@@ -1,5 +1,6 @@
 """C14 — search returns sound, ordered, disjoint, longest and complete matches."""
 import itertools
+import os
 import multiprocessing as mp
 
 from common import Check, assert_repo_import, eval_cases, eval_one, canon_tree, coq_list, pystr, z, NPROC
@@ -179,6 +180,30 @@ def tok_lit(w):
     return "(toks " + coq_list(f"({k}, {pystr(v)})" for k, v in w) + ")"
 
 
+def _collect_fresh(chk, procs):
+    import json
+    for e, ws, p in procs:
+        out = p.stdout.read()
+        p.wait()
+        here = [json.loads(json.dumps(G.impl_obs(e, w)[0])) for w in ws]
+        chk.evaluations += 1
+        chk.count("first search of a fresh process")
+        try:
+            got = json.loads(out)
+        except ValueError:
+            chk.violation({"pattern": G.show(e)}, f"the pattern worker failed on {G.show(e)}: {p.stderr.read()[-200:]}")
+            continue
+        for which in ("first", "second"):
+            if got[which] != here:
+                k = next(i for i in range(len(ws)) if got[which][i] != here[i])
+                chk.violation({"pattern": G.show(e), "expr": e, "word": list(ws[k])},
+                              f"{G.show(e)} on {list(ws[k])}: the {which} search of a fresh process gives match / nfa_match / starts_with / find_all "
+                              f"= {got[which][k]}, the same search in a process that has compiled other patterns gives {here[k]}")
+                break
+        else:
+            chk.nontrivial.add(("fresh", G.show(e)))
+
+
 def run(tier, seed, replay=None):
     assert_repo_import()
     chk = Check("C14", tier, seed)
@@ -194,6 +219,37 @@ def run(tier, seed, replay=None):
         ws = [tuple(chk.rng.choice([1, 2, 3, 4] if chk.rng.random() < 0.15 else [1, 2, 3])
                     for _ in range(chk.rng.randint(1, 40))) for _ in range(6)]
         rand.append((e, ws))
+    # ---- the first search of a FRESH process (state numbers start at 1 there, with one and two digits mixed) must give what
+    #      the same search gives later and in this process (seeded change C14-12: a memo key of the subset construction that
+    #      joins state numbers without a separator)
+    import json
+    import subprocess
+    from common import REPO
+    fresh = [[["P", [["A", 1]]]] + [["A", a] for a in tail] for tail in ([2, 3, 1, 2], [2, 3], [2, 3, 1, 2, 3, 1], [1, 1, 2])]
+    fresh += [[["A", 1], ["A", 2], ["P", [["A", 3]]], ["A", 1], ["A", 2], ["A", 3], ["A", 1]]]
+    def tup(x):
+        return tuple(tup(y) for y in x) if isinstance(x, list) else x
+    fresh = [tup(e) for e in fresh]
+    while len(fresh) < (40 if tier == "quick" else 600):
+        e = G.random_expr(chk.rng, chk.rng.randint(5, 16))
+        if not G.nullable(G.to_regex(e)):
+            fresh.append(e)
+    procs = []
+    env = dict(os.environ, PYTHONPATH=REPO, VERIF_REPO=REPO, PYTHONDONTWRITEBYTECODE="1")
+    for e in fresh:
+        ws = [tuple(chk.rng.choice([1, 2, 3]) for _ in range(chk.rng.randint(1, 12))) for _ in range(40)]
+        ws = [w for w in ws if G.spec_match(e, w)][:3] + ws[:4]        # words of the language first: the very first run counts
+        if e and e[0][0] == "P":
+            ws.insert(0, tuple([1, 1] + [a[1] for a in e[1:] if a[0] == "A"]))
+        p = subprocess.Popen(["/venv/bin/python", os.path.join(os.path.dirname(os.path.abspath(__file__)), "gsm_worker.py")],
+                             stdin=subprocess.PIPE, stdout=subprocess.PIPE, stderr=subprocess.PIPE, text=True, env=env)
+        p.stdin.write(json.dumps({"expr": e, "words": ws}))
+        p.stdin.close()
+        procs.append((e, ws, p))
+        if len(procs) >= NPROC:
+            _collect_fresh(chk, procs)
+            procs = []
+    _collect_fresh(chk, procs)
     model_cases = []
     with mp.Pool(NPROC) as pool:
         for e, res in pool.imap_unordered(_work_generic, [(e, words) for e in nn] + rand, chunksize=8):
